@@ -25,8 +25,8 @@ def q(tier, quick, thorough):
 
 
 # model branches the property names; a run that reaches none of them proves nothing about the tie
-REQUIRED = ["NVM_QUEUED", "NVM_AUTH", "NVM_USER", "NVM_NOLISTENER", "NVM_ACCEPTED", "NNH_NOTIFIED", "NNH_PRE_OK",
-            "NNH_PRE_USER", "NNH_USER", "NNH_AUTH", "NNH_NOSERVER"]
+REQUIRED = ["NVM_QUEUED", "NVM_DROPPED", "NVM_CLOSED", "NVM_AUTH", "NVM_USER", "NVM_NOLISTENER", "NVM_ACCEPTED", "NNH_NOTIFIED", "NNH_PRE_OK",
+            "NNH_PRE_USER", "NNH_USER", "NNH_AUTH", "NNH_NOSERVER", "NNH_UNDELIVERED"]
 REQUIRED_SYS = ["NSYS_QUEUED", "NSYS_AUTH", "NSYS_USER", "NSYS_NOCONTROL", "NSYS_BACKEND", "NSYS_NOTIFIED",
                 "NSYS_NH_USER", "NE2E"]
 
